@@ -496,7 +496,9 @@ class Provenance(MutableSequence[Expression]):
                     if isinstance(data, collections.abc.Sequence) or data.ndim == 1 or data.shape[-1] == 1
                     else data[..., 0]
                 )
-                units = [unit for unit in np.unique(unit_data) if unit != -1]
+                # In a multi-dimensional data array -1 is padding; a 1-D vector holds arbitrary unit identifiers, -1 included.
+                identifiers_only = isinstance(data, collections.abc.Sequence) or data.ndim == 1
+                units = [unit for unit in np.unique(unit_data) if identifiers_only or unit != -1]
 
             self._units = units if isinstance(units, Units) else Units(units=units, candidates=candidates)
             num_units = len(self._units.units)
